@@ -581,7 +581,7 @@ def check(ctx):
     # constructors receive the values mapping - the caller's own datum on the SimpleObjectMethod path
     constructs = [c.methods["construct"] for c in model.classes_in_module(DESER_MOD) if "construct" in c.methods and classify_impl(c.methods["construct"]) != "abstract"]
     mutation_rule(ctx, "C08.R6", dm + constructs, {"data", "fields"})
-    mutation_rule(ctx, "C08.R6", sm + strat, {"obj"})
+    mutation_rule(ctx, "C08.R6", sm + strat, {"obj"}, child_results_alias=True)
 
     # ---------------- R7: check-only and building variants evaluate their children in the same order
     ctx.rule("C08.R7", "a check-only variant and the building variant it replaces invoke the same children in the same evaluation order (the first failing child decides the error reported for an item)", floor=3)
@@ -648,6 +648,7 @@ def order_rule(ctx):
 
 
 def mutants(mb):
+    mb.add_text("discriminator-key-written-in-place", "apischema/serialization/methods.py", "            res = {**res, self.alias: self.key}\n", "            res[self.alias] = self.key\n", "C08.R6", "DiscriminatedAlternative")
     D = "apischema/deserialization/__init__.py"
     S = "apischema/serialization/__init__.py"
     DM = "apischema/deserialization/methods.py"
